@@ -8,13 +8,13 @@ request   `run <fuel> <program>`  → `<outcome> | <event>;… | <obs>;… | fin
 
 program   `<P> <stamp> <nhouses> { <n> id… <n> id… <n> id… } <nframers> { framer }`
 framer    `<a|i|s> <period> <nframes> { frame }`
-frame     `<n> { guard } <n> { act } <n> { act } <n> { act } <n> { trans }`   (beacts enacts reacts exacts preacts)
+frame     `<over|-> <n> { guard } <n> { act } <n> { act } <n> { act } <n> { trans }`   (beacts enacts reacts exacts preacts)
 guard     `c <cond>` | `f <ctl> <slave>`
 cond      `A` | `R <n>` | `F <flag> <int>`
 act       `b <ctl> <period|-> <n> id…` | `f <ctl> <slave>` | `p <flag> <int>`
 trans     `<n> { cond } <target>`
 numbers   exact rationals `p/q`
-obs       `r <L|F> id ctl` | `y id st` | `w id ctl` | `b by target ctl period|-` | `f by slave ctl st ret` | `k id ok`
+obs       `m id frame <e|x>` | `r <L|F> id ctl` | `y id st` | `w id ctl` | `b by target ctl period|-` | `f by slave ctl st ret` | `k id ok`
 -/
 namespace Ioflo.Drv.Bids
 open Ioflo.Proto Ioflo.Sked Ioflo.Bids Ioflo.Drv.SkedProto
@@ -54,12 +54,14 @@ def trans : P Trans := do
   pure { conds := cs, target := t }
 
 def frame : P (Frame Rat) := do
+  let ot ← tok
+  let over ← (if ot = "-" then pure none else match ot.toNat? with | some o => pure (some o) | none => failure : P (Option Nat))
   let be ← counted guard
   let en ← counted act
   let re ← counted act
   let ex ← counted act
   let pr ← counted trans
-  pure { beacts := be, enacts := en, reacts := re, exacts := ex, preacts := pr }
+  pure { over := over, beacts := be, enacts := en, reacts := re, exacts := ex, preacts := pr }
 
 def framer : P (Fr Rat) := do
   let s ← tok
@@ -84,6 +86,7 @@ def showObs : Obs Rat → String
   | .bid b t c p => s!"b {b} {t} {ctlCode c} {match p with | some p => ratToString p | none => "-"}"
   | .fiat b sl c st r => s!"f {b} {sl} {ctlCode c} {statusCode st} {boolCode r}"
   | .check i ok => s!"k {i} {boolCode ok}"
+  | .mark i f en => s!"m {i} {f} {if en then "e" else "x"}"
 
 def showRun (p : Program Rat) (fuel : Nat) : String :=
   if !p.wellFormed then "bad-op" else
@@ -93,7 +96,8 @@ def showRun (p : Program Rat) (fuel : Nat) : String :=
   outcomeCode r.1 ++ " | " ++ ";".intercalate (r.2.events.map (showEvent ratToString))
     ++ " | " ++ ";".intercalate (w.trace.map showObs)
     ++ " | final " ++ " ".intercalate ((List.range w.n).map fun i =>
-        statusCode (w.framers i).status ++ ":" ++ ctlCode (w.framers i).desire ++ ":" ++ ratToString (w.framers i).period)
+        statusCode (w.framers i).status ++ ":" ++ ctlCode (w.framers i).desire ++ ":" ++ ratToString (w.framers i).period
+          ++ ":" ++ ",".intercalate ((w.framers i).actives.map toString))
     ++ " | ticks " ++ toString r.2.tick
 
 def statusOf : String → Option Status
